@@ -36,7 +36,6 @@ pub mod address {
     use std::net::SocketAddr;
     use std::net::SocketAddrV4;
     use std::net::SocketAddrV6;
-    use std::string::FromUtf8Error;
 
     use tokio_util::bytes::Buf;
     use tokio_util::bytes::BufMut;
@@ -50,7 +49,7 @@ pub mod address {
         match address {
             Address::Domain(host, port) => {
                 if host.is_empty() {
-                    panic!("Empty destination address")
+                    return Err(io::Error::new(io::ErrorKind::InvalidInput, "Empty destination address"));
                 }
                 buf.put_u16(*port);
                 let bytes = host.as_bytes();
@@ -74,14 +73,29 @@ pub mod address {
         Ok(())
     }
 
-    pub fn read_address_port(buf: &mut Bytes) -> Result<Address, FromUtf8Error> {
+    pub fn read_address_port(buf: &mut Bytes) -> Result<Address, io::Error> {
+        fn invalid(msg: &str) -> io::Error {
+            io::Error::new(io::ErrorKind::InvalidData, msg)
+        }
+        if buf.remaining() < 4 {
+            return Err(invalid("incomplete address"));
+        }
         let port = buf.get_u16();
-        let addr_type = AddressType::new(buf.get_u8());
+        let addr_type = AddressType::new(buf.get_u8()).ok_or_else(|| invalid("unsupported address type"))?;
+        let need = match addr_type {
+            AddressType::Ipv4 => 4,
+            AddressType::Domain => 1 + buf[0] as usize,
+            AddressType::Ipv6 => 16,
+        };
+        if buf.remaining() < need {
+            return Err(invalid("incomplete address"));
+        }
         match addr_type {
             AddressType::Ipv4 => Ok(Address::from(SocketAddr::V4(SocketAddrV4::new(Ipv4Addr::from(buf.get_u32()), port)))),
             AddressType::Domain => {
                 let length = buf.get_u8() as usize;
-                Ok(Address::Domain(String::from_utf8(buf.copy_to_bytes(length).to_vec())?, port))
+                let host = String::from_utf8(buf.copy_to_bytes(length).to_vec()).map_err(|_| invalid("domain is not valid UTF-8"))?;
+                Ok(Address::Domain(host, port))
             }
             AddressType::Ipv6 => Ok(Address::from(SocketAddr::V6(SocketAddrV6::new(Ipv6Addr::from(buf.get_u128()), port, 0, 0)))),
         }
